@@ -15,7 +15,7 @@ from . import kernel
 
 VERIF = os.path.dirname(os.path.dirname(os.path.abspath(__file__)))
 KNOWN = os.path.join(VERIF, 'known_findings.jsonl')
-REPLAYS = os.path.join(VERIF, 'replays')
+REPLAYS = os.environ.get('VERIF_REPLAYS') or os.path.join(VERIF, 'replays')     # the self-test tools give each mutant its own
 EVIDENCE = os.path.join(VERIF, 'evidence')
 
 RUN_WALL = 30           # seconds per run (alarm inside the worker)
